@@ -335,6 +335,13 @@ func syncSegMetaWithSegFullMeta(myId int64, allSegKeys map[string]struct{}) int 
 				continue
 			}
 
+			// A segment this process is still writing: its directory holds the running
+			// sfm, which lists only the columns and blocks flushed so far. It is not a
+			// rotated segment; the rotation registers it with its final metadata.
+			if writer.IsSegKeyUnrotated(segkey) {
+				continue
+			}
+
 			smi, err := readSegFullMetaFileAndPopulate(segkey)
 			if err != nil {
 				log.Errorf("syncSegMetaWithSegFullMeta: Error populating segfullmeta, err:%v", err)
